@@ -268,7 +268,7 @@ def sk_tokens(rng, heavy):
     return ["K"] + toks
 
 
-VER_POOL = ["0.4", "0.4", "0.3", "0.5", "1.0", "2.5", "0.1", "1e+100", "0.30000000000000004"]
+VER_POOL = ["0.4", "0.4", "0.3", "0.5", "1.0", "2.5", "0.1", "123.25", "0.30000000000000004"]   # tokens that ryu writes back unchanged
 
 
 def gen_odd(rng):
@@ -366,6 +366,256 @@ def gen_sniff(rng):
     return lines
 
 
+
+# ---------------------------------------------------------------------------
+# texts: what serde_json accepts / refuses, in which order (flavour `text`), and compressed or
+# mislabelled bytes (flavour `blob`)
+
+import bz2 as _bz2
+import gzip as _gzip
+import json as _json
+import lzma as _lzma
+
+
+def _jstr(s):
+    return _json.dumps(s, ensure_ascii=False)
+
+
+def _sk_members(rng, heavy):
+    hf = rng.choice([1, 1, 2, 3, 4])
+    k = rng.choice([21, 31, 7, 10]) * (1 if hf == 1 else 3)
+    is_num = rng.random() < 0.3
+    mx = 0 if is_num else rng.choice([U64, mh_for_scaled(1000), mh_for_scaled(2)])
+    num = rng.choice([5, 500]) if is_num else 0
+    M = mx if mx else U64
+    mins = sorted({rng.choice([0, 1, M, M // 2, rng.randint(0, M)]) for _ in range(rng.choice([0, 1, 2, 5, 12]))})
+    if rng.random() < heavy * 0.3:
+        rng.shuffle(mins)
+    track = rng.random() < 0.5
+    mol = MOL[hf]
+    if rng.random() < heavy * 0.25:
+        mol = rng.choice(["rna", "RNA", "dna ", ""])            # panics when reached
+    elif rng.random() < 0.3:
+        mol = rng.choice([mol.upper(), mol.lower()])
+    mem = [("num", str(num)), ("ksize", str(k)), ("seed", str(rng.choice([42, 0, U64]))), ("max_hash", str(mx)),
+           ("mins", "[" + ",".join(map(str, mins)) + "]"),
+           ("md5sum", _jstr(rng.choice(["x", "", "0" * 32, "é"])))]
+    if track:
+        mem.append(("abundances", "[" + ",".join(str(rng.choice(ABUND_POOL)) for _ in mins) + "]"))
+    mem.append(("molecule", _jstr(mol)))
+    return mem
+
+
+BAD_NUMS = ["18446744073709551616", "-1", "-0", "1.0", "1e2", "01", "+1", "1.", ".5", "1e", "0x10", "1.5e+3", "4294967296",
+            "99999999999999999999999", "true", "null", '"7"', "[1]", "{}"]
+ESC_STRS = ['"\\u00e9"', '"\\u00E9\\u0041"', '"\\ud83d\\ude00"', '"\\uD83D\\uDE00x"', '"\\ud83d"', '"\\ude00"', '"\\ud83d\\u0041"',
+            '"\\ud83dx"', '"\\/\\b\\f\\n\\r\\t\\"\\\\"', '"\\x41"', '"\\u00e"', '"\\u00g0"', '"a\x01b"', '"a\tb"', '"a\x7fb"',
+            '"\\u0000"', '"\\u001f\\u0020"', '"  "', '"\U0001F600"', '"\\"', '"unterminated', '"a\\', "'single'",
+            '"sourmash_signature"', '" "', '""']
+
+
+def _nest(rng, n):
+    """a value nested n levels"""
+    o, c = ("[", "]") if rng.random() < 0.7 else ('{"a":', "}")
+    return o * n + rng.choice(["1", "null", '"x"', "[]"]) + c * n
+
+
+def _obj(members):
+    return "{" + ",".join(_jstr(k) + ":" + v for k, v in members) + "}"
+
+
+def gen_text(rng):
+    heavy = rng.choice([0.0, 0.3, 0.6, 1.0])
+    nsig = rng.choice([1, 1, 2, 3])
+    sig_texts = []
+    for _ in range(nsig):
+        sks = []
+        for _ in range(rng.choice([1, 1, 2, 3, 0])):
+            mem = _sk_members(rng, heavy)
+            r = rng.random()
+            if r < heavy * 0.12:                                   # a HyperLogLog sketch
+                mem = [("registers", "[" + ",".join(str(rng.choice([0, 1, 255, 256])) for _ in range(rng.randint(0, 4))) + "]"),
+                       ("p", str(rng.choice([2, 14, -1]))), ("q", "62"), ("ksize", rng.choice(["21", "18446744073709551616"]))]
+                if rng.random() < 0.3:
+                    mem.pop(rng.randrange(len(mem)))
+            if rng.random() < heavy * 0.3:                         # damage to members
+                op = rng.choice(["dup", "drop", "shuffle", "badnum", "unknown", "deep", "nullify", "dupunknown"])
+                if op == "dup" and mem:
+                    mem.insert(rng.randrange(len(mem) + 1), rng.choice(mem))
+                elif op == "drop" and mem:
+                    mem.pop(rng.randrange(len(mem)))
+                elif op == "shuffle":
+                    rng.shuffle(mem)
+                elif op == "badnum" and mem:
+                    i = rng.randrange(len(mem))
+                    kk, vv = mem[i]
+                    if vv.startswith("["):
+                        mem[i] = (kk, "[" + rng.choice(BAD_NUMS) + "]")
+                    else:
+                        mem[i] = (kk, rng.choice(BAD_NUMS))
+                elif op == "unknown":
+                    mem.insert(rng.randrange(len(mem) + 1), ("foo", rng.choice(["1", "null", '{"a":[1,{"b":null}]}', "[[]]"])))
+                elif op == "deep":
+                    mem.insert(rng.randrange(len(mem) + 1), ("foo", _nest(rng, rng.choice([1, 100, 122, 123, 124, 125, 200]))))
+                elif op == "nullify" and mem:
+                    i = rng.randrange(len(mem))
+                    mem[i] = (mem[i][0], "null")
+                elif op == "dupunknown":
+                    mem += [("zz", "1"), ("zz", "2")]
+            if rng.random() < heavy * 0.08:                        # sequence form of the record
+                sks.append("[" + ",".join(v for _, v in mem) + "]")
+            elif rng.random() < heavy * 0.05:
+                sks.append(rng.choice(["null", "5", '"x"', "[]", "{}"]))
+            else:
+                sks.append(_obj(mem))
+        name = rng.choice(ESC_STRS) if rng.random() < 0.4 + heavy * 0.3 else _jstr(gen_name(rng))
+        mem = [("class", _jstr(LIT if rng.random() > heavy * 0.1 else "x")), ("email", '""'),
+               ("hash_function", '"0.murmur64"'), ("filename", rng.choice(["null", _jstr(gen_name(rng))])),
+               ("name", name), ("license", '"CC0"'), ("signatures", "[" + ",".join(sks) + "]"),
+               ("version", rng.choice(["0.4", "0.4", "0.3", "1.0", "1", "2", "10", "0.5"]))]
+        if rng.random() < 0.3:
+            mem = [m for m in mem if m[0] not in rng.sample(["class", "email", "filename", "name", "license", "version"], 2)]
+        if rng.random() < heavy * 0.5:
+            op = rng.choice(["dup", "drop", "shuffle", "badtype", "unknown", "deep", "dupunknown", "null"])
+            if op == "dup":
+                mem.insert(rng.randrange(len(mem) + 1), rng.choice(mem))
+            elif op == "drop":
+                mem.pop(rng.randrange(len(mem)))
+            elif op == "shuffle":
+                rng.shuffle(mem)
+            elif op == "badtype":
+                i = rng.randrange(len(mem))
+                mem[i] = (mem[i][0], rng.choice(["5", "true", "[]", "{}", '"s"', "1e999" if mem[i][0] != "version" else "true"]))
+            elif op == "unknown":
+                mem.insert(rng.randrange(len(mem) + 1), ("comment", rng.choice(['"' + LIT + '"', "[1,2,{}]", "1.5e3"])))
+            elif op == "deep":
+                mem.insert(rng.randrange(len(mem) + 1), ("deep", _nest(rng, rng.choice([100, 127, 128, 300]))))
+            elif op == "dupunknown":
+                mem += [("zz", "1"), ("zz", '"' + LIT + '"')]
+            elif op == "null":
+                i = rng.randrange(len(mem))
+                mem[i] = (mem[i][0], "null")
+        if rng.random() < heavy * 0.06:
+            vals = [v for _, v in mem]
+            sig_texts.append("[" + ",".join(vals[:rng.choice([len(vals), len(vals), 7, 6, 3])] + (["1"] if rng.random() < 0.2 else [])) + "]")
+        else:
+            sig_texts.append(_obj(mem))
+    text = "[" + ",".join(sig_texts) + "]"
+    # damage to the text as a whole
+    r = rng.random()
+    if r < heavy * 0.15:
+        text = text[:rng.randint(0, len(text))]                   # truncation
+    elif r < heavy * 0.25:
+        i = rng.randint(0, len(text))
+        text = text[:i] + rng.choice(["@", ",", "]", "}", '"', ":", " ", "\n", "\\", "\x00", "null", "1"]) + text[i:]
+    elif r < heavy * 0.32:
+        text = text + rng.choice([" ", "\n\t ", "x", "]", "[]", ","])
+    elif r < heavy * 0.36:
+        text = rng.choice(["﻿", " ", "\n", "\x0b"]) + text
+    elif r < heavy * 0.40:
+        text = text[1:-1] if rng.random() < 0.5 else "{" + _jstr("sigs") + ":" + text + "}"
+    elif r < heavy * 0.45:
+        text = text.replace(",", " ,\n").replace(":", " :\t").replace("[", "[ ").replace("]", "\r]")
+    if LIT not in text and rng.random() < 0.7:
+        # keep the Python-level sniff out of the way (it wants the literal somewhere after position 0)
+        text = text + (" " if not text.endswith(" ") else "") if False else text
+    b = text.encode("utf-8")
+    d = 8
+    lines = [f"blob {d} h{b.hex()} - -"]
+    vias = ["str", "bytes", "gz", "path", "fbin", "ftext", "fgz"]
+    lines.append(f"load 100 {d} {rng.choice(vias)} - - 0 1")
+    lines.append(f"load 140 {d} {rng.choice(vias)} - - 0 0")
+    if rng.random() < 0.3:
+        lines.append(f"load 180 {d} {rng.choice(vias)} {rng.choice(['21', '63', '0'])} {rng.choice(['-', xs('DNA'), xs('protein'), xs('rna')])} 0 1")
+    lines.append("save 5 0 0 100")
+    lines.append("save 6 0 0 100 101")
+    lines.append("show 100")
+    return lines
+
+
+def _gunzip(b):
+    """what a (multi-member) gzip reader delivers for these bytes: (bytes, fails)"""
+    import zlib
+    out = b""
+    data = b
+    while data:
+        d = zlib.decompressobj(16 + zlib.MAX_WBITS)
+        try:
+            for i in range(len(data)):
+                out += d.decompress(data[i:i + 1])
+                if d.eof:
+                    break
+        except zlib.error:
+            return out, True
+        if not d.eof:
+            return out, True                    # truncated member
+        data = d.unused_data + data[i + 1:]
+        if data and data[:2] != b"\x1f\x8b":
+            return out, True                    # junk after a member: the next header is refused
+    return out, False
+
+
+def _gz_tokens(b):
+    """the two inflation tokens of the `blob` op: of the bytes, and of that result"""
+    def tok(x):
+        if len(x) < 5 or x[:2] != b"\x1f\x8b":
+            return "-", None
+        o, fails = _gunzip(x)
+        return ("!" if fails else "h") + o.hex(), o
+    t1, o1 = tok(b)
+    t2 = "-"
+    if o1 is not None:
+        t2, _ = tok(o1)
+    return t1 + " " + t2
+
+
+def gen_blob(rng):
+    """compressed / mislabelled bytes: niffler decides by the first bytes, never by the name"""
+    doc = '[{"class":"' + LIT + '","email":"","hash_function":"0.murmur64","filename":null,"name":' + _jstr(gen_name(rng)) + \
+          ',"license":"CC0","signatures":[' + _obj(_sk_members(rng, 0.0)) + '],"version":0.4}]'
+    raw = doc.encode("utf-8")
+    gz = _gzip.compress(raw, compresslevel=rng.randint(1, 9))
+    kind = rng.choice(["gz", "gztrunc", "gzjunk", "gzgz", "gz2", "bz2", "xz", "zstd", "short", "zip", "gznotjson", "plain",
+                       "gzhdr", "magic2", "bzmagic"])
+    if kind == "gz":
+        b = gz
+    elif kind == "gztrunc":
+        # inside the 10-byte header (nothing comes out) or inside the 8-byte trailer (everything does)
+        b = gz[:rng.choice([5, 6, 9, len(gz) - 7, len(gz) - 1])]
+    elif kind == "gzjunk":
+        b = gz + rng.choice([b"xx", b"[]", b"\x1f\x8b"])
+    elif kind == "gzgz":
+        b = _gzip.compress(gz)
+    elif kind == "gz2":
+        i = rng.randint(1, len(raw) - 1)
+        b = _gzip.compress(raw[:i]) + _gzip.compress(raw[i:])
+    elif kind == "bz2":
+        b = _bz2.compress(raw)
+    elif kind == "xz":
+        b = _lzma.compress(raw)
+    elif kind == "zstd":
+        b = b"\x28\xb5\x2f\xfd" + raw
+    elif kind == "short":
+        b = rng.choice([b"[]", b"[ ]", b"\x1f\x8b", b"\x1f\x8b\x08", b"[  ]", b"\x1f\x8b\x08\x00", b"BZ"])
+    elif kind == "zip":
+        b = b"PK\x03\x04" + raw
+    elif kind == "gznotjson":
+        b = _gzip.compress(rng.choice([b"hello " + LIT.encode(), b"\xff\xfe", b"", b"[]"]))
+    elif kind == "gzhdr":
+        b = b"\x1f\x8b\x08\x00\x00"
+    elif kind == "magic2":
+        b = b"\x1f\x8b" + raw
+    elif kind == "bzmagic":
+        b = b"BZ" + raw
+    else:
+        b = raw
+    lines = [f"blob 9 h{b.hex()} {_gz_tokens(b)}"]
+    for j, via in enumerate(rng.sample(["bytes", "path", "fbin", "path", "gz"], 3)):
+        lines.append(f"load {100 + 10 * j + rng.randrange(8)} 9 {via} - - {1 if (via == 'path' and rng.random() < 0.2) else 0} {rng.randint(0, 1)}")
+    lines.append("show 100")
+    return lines
+
+
 def gen_case(rng, flavour):
     if flavour == "round":
         return gen_round(rng)
@@ -375,6 +625,10 @@ def gen_case(rng, flavour):
         return gen_odd(rng)
     if flavour == "sniff":
         return gen_sniff(rng)
+    if flavour == "text":
+        return gen_text(rng)
+    if flavour == "blob":
+        return gen_blob(rng)
     raise ValueError(flavour)
 
 
@@ -388,14 +642,31 @@ def _md5_tok(tok):
     return "R" + common.md5_of_pre(int(k), mins).encode().hex()
 
 
+def _tx_tok(tok):
+    """tx=H<hex>|P<k>:<mins>|H<hex>... -> tx=H<hex> (md5 applied to the pre-images)"""
+    out = []
+    for seg in tok[3:].split("|"):
+        if seg.startswith("H"):
+            out.append(seg[1:])
+        elif seg.startswith("P"):
+            k, _, ms = seg[1:].partition(":")
+            mins = [int(x) for x in ms.split(",")] if ms else []
+            out.append(common.md5_of_pre(int(k), mins).encode().hex())
+        elif seg:
+            out.append("??")
+    return "tx=H" + "".join(out)
+
+
 def post_model(lines):
     out = []
     for l in lines:
-        if "md5=P" in l:
+        if "md5=P" in l or " tx=" in l:
             parts = l.split(" ")
             for i, p in enumerate(parts):
                 if p.startswith("md5=P"):
                     parts[i] = "md5=" + _md5_tok(p[4:])
+                elif p.startswith("tx="):
+                    parts[i] = _tx_tok(p)
             l = " ".join(parts)
         out.append(l)
     return out
@@ -483,6 +754,11 @@ def oracle(case, impl):
                 continue
             p["hand"] = src.get("hand", False)
             obj[r] = p
+            if src.get("hand") and src["kind"] == "sig" and p.get("lic") != src.get("lic"):
+                # (3) for a signature whose envelope is not the default one (only a foreign file gives that)
+                bad.append((idx, "C09:copy-resets-license",
+                            f"`{op}`: the signature says license {unx(src['lic'])!r}, its {o} says {unx(p['lic'])!r} "
+                            f"(__copy__/__reduce__ pass only minhash, name, filename to the constructor)"))
             fields = FIELDS if src["kind"] == "sig" else FIELDS[3:]
             diff = same_fields(src, p, fields)
             if diff and not src.get("hand"):
@@ -496,7 +772,7 @@ def oracle(case, impl):
                 if all(h in obj for h in hs) and not any(obj[h].get("hand") for h in hs):
                     bad.append((idx, "C09:save-refused", f"`{op[:60]}` answered {obs[:80]}"))
                 continue
-            dump[d] = obs.split(" ", 2)[2]          # without the gz flag
+            dump[d] = obs.split(" ", 2)[2]          # without the gz flag (includes the text, byte for byte)
             if any(obj.get(h, {}).get("hand") for h in hs):
                 hand[d] = None                      # derived from a hand-crafted document
             if all(h in obj for h in hs):
@@ -596,6 +872,10 @@ def nontrivial(case, impl):
             for g in parse_load(obs) or []:
                 if g is not None and g.get("hs", "").count(":") >= 2:
                     return True
+    if case and case[0].startswith("blob "):
+        # text / blob cases: a text of some length that some load answered with signatures or with an error
+        return len(case[0]) > 60 and any(op.startswith("load ") and (obs.startswith("err ") or obs.startswith("ok n=") and obs != "ok n=0")
+                                         for op, obs in zip(case, impl))
     return len({o for o in impl if o.startswith("ok ")}) >= 3 and all(op.startswith("sniff") for op in case)
 
 
